@@ -411,6 +411,15 @@ class CallMixin(object):
             data = {'prim': q, 'kind': kind, 'args': list(args), 'kwargs': dict(kwargs),
                     'roles': {r: (args[i] if i < len(args) else kwargs.get(r))
                               for r, i in roles.items()}}
+            if kind == 'OPEN':
+                mode = data['roles'].get('mode')
+                if mode is None:
+                    data['kind'] = 'OPEN_READ'
+                elif isinstance(mode, Const) and isinstance(mode.value, str) and \
+                        not any(ch in mode.value for ch in 'wax+'):
+                    data['kind'] = 'OPEN_READ'
+                else:
+                    data['kind'] = 'OPEN_WRITE'
             n = self.emit('effect', node, data)
             res = Call(q, tuple(args), tuple(sorted(kwargs.items())), n)
             data['result'] = res
